@@ -39,8 +39,11 @@ CONSTANTS Interps,          \* interpreter instances, e.g. {"i1","i2"}
           CmdsOf(_),        \* the command alphabet of one interpreter
           Export            \* print EDGE / STATE / FSDEF records
 
-VARIABLES sess, mods, mstack, loads, ctl, gen, nreq
-vars == <<sess, mods, mstack, loads, ctl, gen, nreq>>
+VARIABLES sess, mods, mstack, loads, ctl, gen, nreq,
+          fs            \* the module files: FS10, or FSOf(gen) once generated
+                        \* (a function of gen, kept as a variable only so that
+                        \* TLC does not recompute it in every state)
+vars == <<sess, mods, mstack, loads, ctl, gen, nreq, fs>>
 
 ModIds == Range(ModSeq)
 Idx(m) == CHOOSE k \in DOMAIN ModSeq : ModSeq[k] = m
@@ -49,7 +52,7 @@ Mods3 == <<"ma", "mb", "mc">>
 Mods4 == <<"ma", "mb", "mc", "md">>
 Mods5 == <<"ma", "mb", "mc", "md", "me">>
 
-FS == IF Mode = "c10" THEN FS10 ELSE FSOf(gen, ModIds)
+FS == fs
 
 -----------------------------------------------------------------------------
 (* Commands, outcomes, control *)
@@ -163,7 +166,7 @@ Atomic(c, e) ==
   /\ sess' = [sess EXCEPT ![c.i] = NewScope(c)]
   /\ mods' = IF c.op = "bump" /\ Has(c, c.n)
              THEN [mods EXCEPT ![c.i][BumpTarget(c)].ctr = @ + 1] ELSE mods
-  /\ UNCHANGED <<mstack, loads, gen>>
+  /\ UNCHANGED <<mstack, loads, gen, fs>>
   /\ Count
   /\ Finish(e, c, Outcome(c), Key, ctl.ph = "failed")
 
@@ -183,7 +186,7 @@ ReqStart(c) ==
                          !.cmd = c, !.start = Key, !.act = <<Act(c.id, c.form)>>,
                          !.first = ctl.first, !.snap = ctl.snap]
   /\ Count
-  /\ UNCHANGED <<sess, mods, mstack, loads, gen>>
+  /\ UNCHANGED <<sess, mods, mstack, loads, gen, fs>>
 
 \* Environment.pushModuleStack: error if the id is already on the stack
 ReqPush ==
@@ -193,7 +196,7 @@ ReqPush ==
           /\ UNCHANGED mstack
      ELSE /\ mstack' = [mstack EXCEPT ![I] = Append(@, Top.id)]
           /\ ctl' = SetTop([Top EXCEPT !.ph = "lookup", !.pushed = TRUE])
-  /\ UNCHANGED <<sess, mods, loads, gen, nreq>>
+  /\ UNCHANGED <<sess, mods, loads, gen, nreq, fs>>
 
 \* cache hit / find the file / parse it
 ReqLookup ==
@@ -202,7 +205,7 @@ ReqLookup ==
             ELSE IF Top.id \notin DOMAIN FS THEN [ctl EXCEPT !.err = Err("notfound", Top.id)]
             ELSE IF FS[Top.id].syn THEN [ctl EXCEPT !.err = SynErr]
             ELSE SetTop([Top EXCEPT !.ph = "load", !.pc = 0, !.env = NoBind])
-  /\ UNCHANGED <<sess, mods, mstack, loads, gen, nreq>>
+  /\ UNCHANGED <<sess, mods, mstack, loads, gen, nreq, fs>>
 
 Target(env, st) == env[BindName(st.form, st.id)].id
 
@@ -235,21 +238,21 @@ ReqLoadStep ==
                [] OTHER (* fail *) ->
                     /\ ctl' = [ctl EXCEPT !.err = Err("boom", "")]
                     /\ UNCHANGED <<loads, mods>>
-  /\ UNCHANGED <<sess, mstack, gen, nreq>>
+  /\ UNCHANGED <<sess, mstack, gen, nreq, fs>>
 
 \* modules[moduleidentifier] = moduleEnv
 ReqRegister ==
   /\ Stepping("register")
   /\ mods' = [mods EXCEPT ![I] = (Top.id :> [vars |-> Top.env, ctr |-> 0]) @@ @]
   /\ ctl' = SetTop([Top EXCEPT !.ph = "pop"])
-  /\ UNCHANGED <<sess, mstack, loads, gen, nreq>>
+  /\ UNCHANGED <<sess, mstack, loads, gen, nreq, fs>>
 
 \* environment.popModuleStack()
 ReqPop ==
   /\ Stepping("pop")
   /\ mstack' = [mstack EXCEPT ![I] = SubSeq(@, 1, Len(@) - 1)]
   /\ ctl' = SetTop([Top EXCEPT !.ph = "bind", !.pushed = FALSE])
-  /\ UNCHANGED <<sess, mods, loads, gen, nreq>>
+  /\ UNCHANGED <<sess, mods, loads, gen, nreq, fs>>
 
 \* the three binding forms and the underscore filter (nodes.py:1778-1800):
 \* iterate the module's local symbols, skip private ones, put into the importer
@@ -267,12 +270,12 @@ ReqBind(e) ==
   /\ LET b == Bindings(Top.form, Top.id, mods[I][Top.id].vars) IN
      IF Depth = 1
      THEN /\ sess' = [sess EXCEPT ![I] = b @@ @]
-          /\ UNCHANGED <<mods, mstack, loads, gen, nreq>>
+          /\ UNCHANGED <<mods, mstack, loads, gen, nreq, fs>>
           /\ Finish(e, ctl.cmd, Val("null", 0), ctl.start, ctl.ph = "rerun")
      ELSE /\ ctl' = [ctl EXCEPT !.act = [k \in 1..(Depth - 1) |->
                          IF k = Depth - 1 THEN [ctl.act[k] EXCEPT !.env = b @@ @]
                          ELSE ctl.act[k]]]
-          /\ UNCHANGED <<sess, mods, mstack, loads, gen, nreq>>
+          /\ UNCHANGED <<sess, mods, mstack, loads, gen, nreq, fs>>
 
 \* an error leaves the activation; the pinned code leaves the id on the stack
 ReqUnwind ==
@@ -280,11 +283,11 @@ ReqUnwind ==
   /\ mstack' = IF UnwindOnFailure /\ Top.pushed
                THEN [mstack EXCEPT ![I] = SubSeq(@, 1, Len(@) - 1)] ELSE mstack
   /\ ctl' = [ctl EXCEPT !.act = SubSeq(@, 1, Depth - 1)]
-  /\ UNCHANGED <<sess, mods, loads, gen, nreq>>
+  /\ UNCHANGED <<sess, mods, loads, gen, nreq, fs>>
 
 ReqFail(e) ==
   /\ Running /\ ctl.err.cls # "" /\ Depth = 0
-  /\ UNCHANGED <<sess, mods, mstack, loads, gen, nreq>>
+  /\ UNCHANGED <<sess, mods, mstack, loads, gen, nreq, fs>>
   /\ Finish(e, ctl.cmd, ctl.err, ctl.start, ctl.ph = "rerun")
 
 Internal(e) == ReqPush \/ ReqLookup \/ ReqLoadStep \/ ReqRegister \/ ReqPop
@@ -294,7 +297,7 @@ Internal(e) == ReqPush \/ ReqLookup \/ ReqLoadStep \/ ReqRegister \/ ReqPop
 Settle ==
   /\ ctl.ph \in {"failed", "done"}
   /\ ctl' = Idle
-  /\ UNCHANGED <<sess, mods, mstack, loads, gen, nreq>>
+  /\ UNCHANGED <<sess, mods, mstack, loads, gen, nreq, fs>>
 
 -----------------------------------------------------------------------------
 (* c11: generating the module graph, edge by edge in canonical order (edges
@@ -311,16 +314,17 @@ GenEdge(m, d, form, poke) ==
   /\ GenRot => /\ form = Forms[((Idx(m) + Idx(d) + Len(gen)) % 4) + 1]
                /\ poke = (Len(gen) % 2 = 1 /\ form # "imp")
   /\ gen' = Append(gen, [m |-> m, d |-> d, form |-> form, poke |-> poke])
-  /\ UNCHANGED <<sess, mods, mstack, loads, ctl, nreq>>
+  /\ UNCHANGED <<sess, mods, mstack, loads, ctl, nreq, fs>>
 
-FsRec == [g |-> gen, fs |-> [m \in DOMAIN FS |-> [syn |-> FS[m].syn, body |-> FS[m].body]]]
+FsRec(f) == [g |-> gen, fs |-> [m \in DOMAIN f |-> [syn |-> f[m].syn, body |-> f[m].body]]]
 
 GenDone(e) ==
   /\ Mode = "c11"
   /\ ctl.ph = "gen"
   /\ ctl' = Idle
+  /\ fs' = FSOf(gen, ModIds)
   /\ UNCHANGED <<sess, mods, mstack, loads, gen, nreq>>
-  /\ Emit(e, "FSDEF", FsRec)
+  /\ Emit(e, "FSDEF", FsRec(fs'))
 
 ASSUME Mode = "c10" => Emit(TRUE, "FSDEF", [g |-> << >>,
           fs |-> [m \in DOMAIN FS10 |-> [syn |-> FS10[m].syn, body |-> FS10[m].body]]])
@@ -334,6 +338,7 @@ Init ==
   /\ ctl    = IF Mode = "c10" THEN Idle ELSE [Idle EXCEPT !.ph = "gen"]
   /\ gen    = << >>
   /\ nreq   = 0
+  /\ fs     = IF Mode = "c10" THEN FS10 ELSE FSOf(<< >>, ModIds)
 
 NextE(e) ==
   \/ \E c \in Cmds : Atomic(c, e) \/ ReqStart(c)
@@ -385,8 +390,14 @@ AtRest == ctl.ph \in {"idle", "failed", "done", "gen"}
 \* C10: nothing of a call survives on the module stack
 StackEmptyBetweenCalls == AtRest => \A i \in Interps : mstack[i] = << >>
 
-\* C10: a failed command, repeated at once, fails the same way and changes nothing
-FailIsIdempotent == ctl.ph = "done" => ctl.first = ctl.second /\ ctl.snap = Snap
+\* C10: a failed command, repeated at once, fails the same way ...
+FailIsIdempotent == ctl.ph = "done" => ctl.first = ctl.second
+\* ... and changes nothing.  (Holds where what a call does before it fails is
+\* itself idempotent - true of the C10 alphabet; a generated C11 module that
+\* bumps another module's counter and then fails legitimately bumps it again
+\* on every attempt: the state after a failed call is the state at the point
+\* of failure, DESIGN 5.3.)
+FailLeavesNoResidue == ctl.ph = "done" => ctl.snap = Snap
 
 \* C10: names never disappear; a binding changes only by a command that defines
 \* or assigns that very name (or binds it through require)
